@@ -363,8 +363,8 @@ func (ft *FT) unfoldInstances(terms []*T) []*T {
 				if n.Args == nil || n.Bind != nil {
 					return
 				}
-				if n.Op == "pow2" && len(n.Args) == 1 && n.Args[0].Args == nil {
-					if k, ok := new(big.Int).SetString(n.Args[0].Op, 10); ok && k.IsInt64() && k.Int64() >= 0 && k.Int64() <= 256 {
+				if n.Op == "pow2" && len(n.Args) == 1 {
+					if k, ok := evalConst(n.Args[0]); ok && k.IsInt64() && k.Int64() >= 0 && k.Int64() <= 256 {
 						key := n.String()
 						if !seen[key] {
 							seen[key] = true
@@ -419,4 +419,47 @@ func (ft *FT) sortedAbstractions() []string {
 	}
 	sort.Strings(out)
 	return out
+}
+
+// evalConst evaluates a ground integer term built from literals, + - *.
+func evalConst(t *T) (*big.Int, bool) {
+	if t.Args == nil {
+		if t.Bind != nil {
+			return nil, false
+		}
+		k, ok := new(big.Int).SetString(t.Op, 10)
+		return k, ok
+	}
+	var vals []*big.Int
+	for _, a := range t.Args {
+		v, ok := evalConst(a)
+		if !ok {
+			return nil, false
+		}
+		vals = append(vals, v)
+	}
+	switch t.Op {
+	case "+":
+		r := big.NewInt(0)
+		for _, v := range vals {
+			r.Add(r, v)
+		}
+		return r, true
+	case "-":
+		if len(vals) == 1 {
+			return new(big.Int).Neg(vals[0]), true
+		}
+		r := new(big.Int).Set(vals[0])
+		for _, v := range vals[1:] {
+			r.Sub(r, v)
+		}
+		return r, true
+	case "*":
+		r := big.NewInt(1)
+		for _, v := range vals {
+			r.Mul(r, v)
+		}
+		return r, true
+	}
+	return nil, false
 }
